@@ -10,6 +10,52 @@ import Zed.Proofs.FuseMergeLemmas
 namespace Zed.Props.C20
 open Zed.Fuse
 
+/-! ### Obligations on the regenerated tables -/
+
+/-- The Fuser shapes with exactly the transforms the model of the shaper is specialised to. -/
+theorem fuser_transforms : Generated.C20.fuserTransforms = ["Cast", "Fill", "Order"] := by decide
+
+/-- `Fuser.stash` starts spilling when the buffered bytes reach the limit (the model's `≥`). -/
+theorem spill_condition : Generated.C20.spillCondition = "f.nbytes >= f.memMaxBytes" := by decide
+
+/-- `zed.IDNull` and the `Kind` order the model's `Ty.kind` / `compareTypes` follow. -/
+theorem null_id_and_kinds :
+    Generated.C20.idNull = 29 ∧
+    Generated.C20.kinds = ["PrimitiveKind", "RecordKind", "ArrayKind", "SetKind", "MapKind", "UnionKind",
+      "EnumKind", "ErrorKind"] := by decide
+
+private def sampleOf : String → Option Ty
+  | "Record" => some (.record (.cons [97] (.prim 9) .nil))
+  | "Array" => some (.array (.prim 9))
+  | "Set" => some (.set (.prim 25))
+  | "Map" => some (.map (.prim 25) (.prim 9))
+  | _ => none
+
+private def ctorKind : String → Option Nat
+  | "MustLookupTypeRecord" => some 1
+  | "LookupTypeRecord" => some 1
+  | "LookupTypeArray" => some 2
+  | "LookupTypeSet" => some 3
+  | "LookupTypeMap" => some 4
+  | _ => none
+
+private def mergeKind (x y : String) : Option Nat :=
+  match sampleOf x, sampleOf y with
+  | some a, some b => (merge 4 a b).map Ty.kind
+  | _, _ => none
+
+/-- Every row of the kind-pair table of `agg.merge` (regenerated from schema.go) is what the
+    model's `merge` does for that pair of kinds … -/
+theorem merge_kind_table :
+    ∀ row ∈ Generated.C20.mergeKindTable, mergeKind row.1 row.2.1 = ctorKind row.2.2 ∧ (ctorKind row.2.2).isSome = true := by
+  decide
+
+/-- … and every pair of container kinds not in the table falls through to a union. -/
+theorem merge_kind_table_complete :
+    ∀ x ∈ ["Record", "Array", "Set", "Map"], ∀ y ∈ ["Record", "Array", "Set", "Map"],
+      (Generated.C20.mergeKindTable.any fun r => r.1 == x && r.2.1 == y) = false → mergeKind x y = some 5 := by
+  decide
+
 /-! ### `merge` embedding lemmas -/
 
 /-- Every leaf path of the left input, with its primitive type, is a leaf path of the merge
